@@ -32,6 +32,9 @@ class Elem:
         self.op = d.get("op")
         self.ty = d.get("ty")
         self.decl = d.get("decl")
+        if self.decl and self.decl.get("kind") == "func" and self.decl["name"].startswith("libcperciva_"):
+            # the headers rename public symbols with #define X libcperciva_X: rules use the source-level name
+            self.decl = dict(self.decl, name=self.decl["name"][len("libcperciva_"):], symbol=self.decl["name"])
         v = d.get("val")
         self.val = int(v) if isinstance(v, str) else v
         self.strv = bytes.fromhex(d["str"]) if "str" in d else None
@@ -291,7 +294,8 @@ class Block:
 class Func:
     def __init__(self, unit, d, repo):
         self.unit = unit
-        self.name = d["name"]
+        self.symbol = d["name"]
+        self.name = d["name"][len("libcperciva_"):] if d["name"].startswith("libcperciva_") else d["name"]
         self.id = d["id"]
         self.static = d.get("static", False)
         self.inline = d.get("inline", False)
@@ -436,6 +440,24 @@ class Func:
             elif rf and not rt:
                 res.append((b.cond, False))
         return res
+
+    def returns_from(self, start):
+        """Norms of the values of every return statement reachable from block `start`, and the set of blocks visited."""
+        seen = set()
+        work = [start]
+        vals = []
+        while work:
+            n = work.pop()
+            if n is None or n in seen:
+                continue
+            seen.add(n)
+            blk = self.blocks[n]
+            rets = [e for e in blk.elems if e.cls == "ReturnStmt"]
+            if rets:
+                vals.append(norm(rets[0].kid(0)) if rets[0].kids else None)
+                continue
+            work.extend(blk.succs)
+        return vals, seen
 
     def always_passes(self, a, b):
         """Every path from element a to the function exit passes element b's block."""
